@@ -35,7 +35,7 @@ def budget(tier):
 def strategy_(draw, tier):
     mol = draw(st.one_of(gens.mols(tier, wide=True), gens.mols(tier), gens.fam_er(130 if tier == "quick" else 400, wide=True)))
     n = len(mol["atoms"])
-    case = {"mol": mol, "order": draw(gens.perms(n)), "post": draw(st.sampled_from(["none", "none", "relabel", "recanon"]))}
+    case = {"mol": mol, "order": draw(gens.perms(n)), "post": draw(st.sampled_from(["none", "none", "relabel", "recanon", "reuse"]))}
     # producer: the graph constructor, or one of the readers on an own rendering (explicitly
     # written defaults such as MASS=0 / zero-valued M lines included)
     prod = draw(st.sampled_from(["graph", "graph", "graph", "v3000", "v2000"]))
